@@ -35,7 +35,11 @@ def factorize_arrow_arr(
     if isinstance(arr, pa.ChunkedArray):
         arr = arr.combine_chunks()
 
-    codes = arr.indices.to_numpy(zero_copy_only=False)
+    indices = arr.indices
+    if indices.null_count:
+        # nulls get the null code rather than a float NaN
+        indices = indices.fill_null(-1)
+    codes = indices.to_numpy(zero_copy_only=False)
     labels = pd.Index(arr.dictionary.to_pandas(types_mapper=pd.ArrowDtype), name=name)
 
     return codes, labels
